@@ -55,7 +55,8 @@ def build_var_map(args: BuilderArgs) -> exp.StarMap | exp.VarMap:
     values: list[ExpOrStr] = []
     for i in range(0, len(args), 2):
         keys.append(args[i])
-        values.append(args[i + 1])
+        # An odd number of arguments leaves the last key without a value
+        values.append(seq_get(args, i + 1) or exp.Null())
 
     return exp.VarMap(keys=exp.array(*keys, copy=False), values=exp.array(*values, copy=False))
 
